@@ -3,7 +3,7 @@
 (* C19 C20).  Family selects the shape of programs.                        *)
 EXTENDS WSWriterMC
 
-CONSTANTS Family, Roles, PmceSet, PoolSet
+CONSTANTS Family, Roles, PmceSet, PoolSet, Quick
 
 MCConnCfgs == {[role |-> r, pmce |-> p, pool |-> q] : r \in Roles, p \in PmceSet, q \in PoolSet}
 
@@ -11,8 +11,9 @@ MCPMSet == << [type |-> 1, size |-> S(0, 5)], [type |-> 2, size |-> S(3, 5)], [t
               [type |-> 8, size |-> S(0, 2)], [type |-> 1, size |-> S(0, 0)] >>
 
 V   == {"w", "s", "rf"}
-SS  == {S(0, 0), S(0, 1), S(1, -1), S(1, 0), S(1, 1), S(2, 0), S(2, 28), S(2, 29), S(3, 5), S(0, 125), S(0, 126)}
-SS1 == {S(0, 0), S(0, 1), S(1, 0), S(1, 1), S(2, 29)}
+SS  == IF Quick THEN {S(0, 0), S(1, 0), S(1, 1), S(2, 28), S(2, 29), S(0, 126)}
+       ELSE {S(0, 0), S(0, 1), S(1, -1), S(1, 0), S(1, 1), S(2, 0), S(2, 28), S(2, 29), S(3, 5), S(0, 125), S(0, 126)}
+SS1 == IF Quick THEN {S(0, 0), S(1, 1), S(2, 29)} ELSE {S(0, 0), S(0, 1), S(1, 0), S(1, 1), S(2, 29)}
 
 UWM   == {<< WM(t, s) >> : t \in {1, 2}, s \in SS}
 UNW2  == {<< NW(1), WR(s1, v1), WR(s2, v2), CL >> : s1 \in SS1, s2 \in SS1, v1 \in V, v2 \in V}
@@ -22,7 +23,8 @@ UWJ   == {<< WJ(s) >> : s \in {S(0, 0), S(1, 0), S(2, 29)}}
 UCTL  == {<< NW(9), WR(S(0, 5), "w"), CL >>, << WM(9, S(0, 125)) >>, << WM(10, S(0, 0)) >>}
 UWP   == {<< WP(p) >> : p \in {0, 1, 2, 4}}
 Units == UWM \cup UNW2 \cup UNW1 \cup UIMP \cup UWJ \cup UCTL \cup UWP
-Probe == {<< WM(2, S(0, 3)) >>, << NW(1), WR(S(1, 1), "w"), CL >>, << WP(0) >>, << WC(9, S(0, 1), "zero") >>, << WJ(S(0, 2)) >>}
+Probe == IF Quick THEN {<< WM(2, S(0, 3)) >>, << NW(1), WR(S(1, 1), "w"), CL >>, << WC(9, S(0, 1), "zero") >>}
+         ELSE {<< WM(2, S(0, 3)) >>, << NW(1), WR(S(1, 1), "w"), CL >>, << WP(0) >>, << WC(9, S(0, 1), "zero") >>, << WJ(S(0, 2)) >>}
 
 Extras == {<< >>, << WC(9, S(0, 5), "zero") >>, << WC(10, S(0, 125), "d1") >>, << SD("d1") >>, << SD("d2"), WC(9, S(0, 0), "zero") >>,
            << EC(FALSE) >>, << EC(FALSE), EC(TRUE) >>, << SL(9) >>, << SL(-2) >>, << SL(0) >>, << SL(10) >>}
